@@ -20,7 +20,7 @@ import cardillo.force_laws, cardillo.forces, cardillo.interactions, cardillo.con
 from vp.core import fd
 from vp.core.alphabet import weyl
 from vp.scen import forces as F
-from vp.props.c07 import LibFail, lib, _libfail, Acc, check_manifold
+from vp.scen.forces import LibFail, lib, libfail_record as _libfail, Acc, check_manifold
 
 ID = "C08"
 LEVEL = "model_checking"
@@ -114,6 +114,8 @@ def _compare(acc, site, R, ref, est, data):
         return
     sc = fd.scale_of(R, ref)
     key = "max_err_" + site.split(" vs ")[0].split(": ")[-1].replace("System.", "")
+    if site.endswith("]"):
+        key += "[" + site.rsplit("[", 1)[1].split("-")[0].split(" ")[0] + "]"
     acc.stat_max(key + "_rel", e / sc)
     acc.stat_max("max_est_rel", est / sc)
     if v == "fail":
